@@ -142,6 +142,8 @@ impl Actor {
             }
             drop(tables);
             transaction.commit().anyerr()?;
+            #[cfg(feature = "verif-hooks")]
+            iroh_base::verif_hooks::event("store:batch_committed", "");
         }
         Ok(())
     }
